@@ -52,7 +52,10 @@ class C03(Prop):
                 evs = [["sub"]] + pg.rand_events(rng, 1, rng.randint(0, 8))
             pipe = pg.rand_chain(rng, variants, depth, src)
             flavor = "threads" if rng.random() < 0.25 else "local"
-            out.append(Case("pipe", flavor, [("pipe", [pipe])], evs, {"kind": "chain"}))
+            fields = [("pipe", [pipe])]
+            if rng.random() < 0.3:
+                fields = [("closure", ["1"])] + fields
+            out.append(Case("pipe", flavor, fields, evs, {"kind": "chain"}))
         return out
 
     def oracle(self, case, lines, model_lines=None):
